@@ -225,6 +225,69 @@ def work_bytes(job):
     return r
 
 
+def seq_of(n, L):
+    out = []
+    for _ in range(L):
+        out.append(n % K)
+        n //= K
+    return out
+
+
+def work_eof(job):
+    """all line-kind sequences of length <= L whose last line has no line ending (the enumeration above always ends lines)"""
+    seed, lo, hi, L = job
+    r = core.JobResult()
+    with core.Session(r) as s:
+        for n in range(lo, hi):
+            # n indexes sequences of length 1..L in order
+            m, l = n, 1
+            while m >= K ** l:
+                m -= K ** l
+                l += 1
+            seq = seq_of(m, l)
+            src = doc_for(seq)[:-1]
+            for fmt in FMTS:
+                for ext in EXTS:
+                    case = dict(requests=[D.req_to_json('asan', 'CONVERT', fmt, ext, 0, 2 | (1 << 4), [src])])
+                    rep = s.call('asan', 'CONVERT', fmt, ext, 0, 2 | (1 << 4), [src], what='[no final newline %s]' % [KINDS[k][0] for k in seq], hang_is_violation=True, crash_is_violation=True)
+                    r.evaluations += 1
+                    r.stats['conversions_no_final_newline'] += 1
+                    if rep is not None:
+                        judge_reply(r, rep, src, fmt, ext, case, 'eof:' + '+'.join(KINDS[k][0] for k in seq[-2:]))
+            r.distinct.add(core.h64('eof', src))
+    return r
+
+
+def work_repeat(job):
+    """N copies of one small block: per-document counters, recursion budgets and table sizes; first/middle/last sentinel must be rendered"""
+    seed, ui, n = job
+    r = core.JobResult()
+    unit = gen.REPEAT_UNITS[ui]
+    name, src, words = gen.repeated_blocks(unit=unit, n=n)
+    with core.Session(r, timeout=60.0) as s:
+        for fmt in FMTS:
+            for ext in EXTS:
+                if ext & 1 and name in ('definition', 'footnote', 'inline-footnote', 'citation', 'abbreviation', 'table', 'fenced', 'math'):
+                    continue        # not Markdown constructs
+                case = dict(requests=[D.req_to_json('asan', 'CONVERT', fmt, ext, 0, 2 | (1 << 4), [src])])
+                rep = s.call('asan', 'CONVERT', fmt, ext, 0, 2 | (1 << 4), [src], what='[%d x %s]' % (n, name), hang_is_violation=True, crash_is_violation=True)
+                r.evaluations += 1
+                r.stats['conversions_repeated_blocks'] += 1
+                if rep is None:
+                    continue
+                judge_reply(r, rep, src, fmt, ext, case, 'repeat:' + name)
+                if fmt == F['itmz'] or (unit[2] == 'html-only' and fmt != F['html']):
+                    continue
+                for w in words:
+                    if w.encode() not in rep.out:
+                        r.violate('dropped:repeat:%s:%s' % (name, D.FMT_NAME[fmt]), 'block %s of %d x %s is missing from the %s output' % (w, n, name, D.FMT_NAME[fmt]), case,
+                                  'unit: ' + core.show(unit[1], 100))
+                        break
+        r.distinct.add(core.h64('rep', name, n))
+        r.sets['repeated_units'].add('%s x %d' % (name, n))
+    return r
+
+
 def replay_known(chk):
     r = core.JobResult()
     with core.Session(r) as s:
@@ -244,7 +307,7 @@ def main():
     L = 4 if chk.thorough else 3
     total = sum(K ** l for l in range(1, L + 1))
     chk.rule = ('(a) ALL sequences of length 1..%d over %d line-kind representatives (%d sequences), (b) random sequences of length 5-30, '
-                '(c) hostile byte strings; each x 7 writers (html latex beamer memoir fodt opml itmz) x {MMD, compatibility}. '
+                '(c) hostile byte strings, (d) all sequences of length <= 2 (3 thorough) with no final line ending, (e) N copies of each of 18 small blocks, N up to 2000 (5000); each x 7 writers (html latex beamer memoir fodt opml itmz) x {MMD, compatibility}. '
                 'distinct = distinct line-kind sequences / distinct (bytes, ext) inputs; every one is non-trivial (>=1 line, 14 conversions judged)' % (L, K, total))
     chk.assumptions = ['one representative text per line kind (exhaustive over representatives, not over all texts of a kind)',
                        'sentinel presence is demanded only for kinds/format pairs the documentation promises to render, and never after an absorbing kind']
@@ -257,6 +320,12 @@ def main():
     nbytes = chk.scale(6000, 300000)
     chunk = max(50, nbytes // 64)
     chk.run_jobs(work_bytes, [(chk.seed, lo, min(nbytes, lo + chunk)) for lo in range(0, nbytes, chunk)])
+    Le = 3 if chk.thorough else 2
+    te = sum(K ** l for l in range(1, Le + 1))
+    stepe = max(50, te // 64)
+    chk.run_jobs(work_eof, [(chk.seed, lo, min(te, lo + stepe), Le) for lo in range(0, te, stepe)])
+    counts = gen.REPEAT_COUNTS if chk.thorough else [100, 999, 1000, 1100, 2000]
+    chk.run_jobs(work_repeat, [(chk.seed, ui, n) for ui in range(len(gen.REPEAT_UNITS)) for n in counts])
     chk.coverage_extra['exhaustive'] = True
     chk.coverage_extra['exhaustive_scope'] = 'all %d line-kind sequences of length <= %d over %d representatives; the random and byte-string parts are sampled' % (total, L, K)
     chk.coverage_extra['line_kinds'] = [k[0] for k in KINDS]
